@@ -623,7 +623,7 @@ class SArr:
         # value must broadcast to out_shape
         if isinstance(value, SArr) or (hasattr(value, 'shape') and not isinstance(value, (Sc, Cx)) and getattr(value, 'ndim', 0) > 0):
             from .symnp import asarray
-            value = asarray(value)
+            value = asarray(value)     # frozen snapshot (numpy copies at assignment time)
             vshape = value.shape
             # leading 1-dims of value may be dropped
             full = bshape(out_shape, vshape)
@@ -748,19 +748,22 @@ class SArr:
             a, b = (other, self) if rev else (self, other)
             dt = _op_dt(op, a, b)
 
-            def fn(idx, a=a, b=b, nd=nd):
-                return elem_binop(op, a.at(*_bidx(a.shape, idx, nd)), b.at(*_bidx(b.shape, idx, nd)))
+            sa, sb = a._snapshot(), b._snapshot()
+            ash, bsh = a.shape, b.shape
+
+            def fn(idx, sa=sa, sb=sb, nd=nd):
+                return elem_binop(op, sa(_bidx(ash, idx, nd)), sb(_bidx(bsh, idx, nd)))
             return SArr(shp, fn, dt)
         if not (is_scalar_like(other) or isinstance(other, (Cx, complex, Sigma)) or sc._is_npc(other)):
             return NotImplemented
         if hasattr(other, 'dtype') and not isinstance(other, (Sc, Cx)):
             other = other.item()
         dt = _op_dt(op, other, self) if rev else _op_dt(op, self, other)
-        me = self
+        me = self._snapshot()
         if rev:
-            fn = lambda idx, me=me, other=other: elem_binop(op, other, me.at(*idx))
+            fn = lambda idx, me=me, other=other: elem_binop(op, other, me(idx))
         else:
-            fn = lambda idx, me=me, other=other: elem_binop(op, me.at(*idx), other)
+            fn = lambda idx, me=me, other=other: elem_binop(op, me(idx), other)
         return SArr(self.shape, fn, dt)
 
     def __add__(self, o): return self._ew(o, '+')
@@ -796,22 +799,22 @@ class SArr:
     def __xor__(self, o): return self._ew(o, '^')
 
     def __neg__(self):
-        me = self
-        return SArr(self.shape, lambda idx: -me.at(*idx), self.dtype)
+        me = self._snapshot()
+        return SArr(self.shape, lambda idx: -me(idx), self.dtype)
 
     def __pos__(self):
         return self
 
     def __abs__(self):
-        me = self
+        me = self._snapshot()
         dt = DT('f', self.dtype.bits // 2) if self.dtype.kind == 'c' else self.dtype
-        return SArr(self.shape, lambda idx: abs(me.at(*idx)), dt)
+        return SArr(self.shape, lambda idx: abs(me(idx)), dt)
 
     def __invert__(self):
-        me = self
+        me = self._snapshot()
         if self.dtype.kind != 'b':
             raise Unsupported('~ on non-bool array')
-        return SArr(self.shape, lambda idx: ~me.at(*idx), self.dtype)
+        return SArr(self.shape, lambda idx: ~me(idx), self.dtype)
 
     def _inplace(self, other, op):
         res = self._ew(other, op)
@@ -853,8 +856,8 @@ class SArr:
     def conj(self):
         if self.dtype.kind != 'c':
             return self
-        me = self
-        return SArr(self.shape, lambda idx: _conj(me.at(*idx)), self.dtype)
+        me = self._snapshot()
+        return SArr(self.shape, lambda idx: _conj(me(idx)), self.dtype)
 
     conjugate = conj
 
